@@ -60,7 +60,8 @@ Theorem c01_stv_round_failure : forall cfg t N (p0 p : profile) prev older (s : 
 Proof. exact (step_failure cand ceqb ceqb_spec). Qed.
 
 (* a whole count, any quota, any transfer, valid-or-empty profile: a failing run was refused at
-   construction (ValueError: m out of range, unknown quota) or failed at a reachable round (the
+   construction (ValueError: m out of range, unknown quota; or — since the random transfer checks
+   the weights up front — TypeError: random transfer and a non-integral weight) or failed at a reachable round (the
    invariant holds there, the count was not complete) in one of the five ways.  Moreover
    - IndexError happens only in simultaneous mode and only after an over-electing round; with a
      quota-preserving transfer (fractional, random) only under the Hare quota and only if
@@ -73,6 +74,7 @@ Theorem c01_stv_errors_exact : forall cfg (p : profile) (s : mstate) e,
   run_stv cfg p s = inr e ->
   let N := total_wt (ballots p) in
   (e = EValue /\ (~ (1 <= s_m cfg <= Z.of_nat (length (cands p)))%Z \/ s_quota cfg = QBad)) \/
+  (e = EType /\ s_transfer cfg = TRandom /\ ~ integral_weights cand p) \/
   exists t, stv_init cfg p = inl t /\
     (exists (pr : profile) prev older (s1 : mstate),
        stv_inv cfg t N p pr (prev :: older) /\ count_elected (prev :: older) <> s_m cfg /\
@@ -336,7 +338,8 @@ Proof.
   split; [vm_compute; split; discriminate|vm_compute; reflexivity].
 Qed.
 
-(* TypeError, Hare, random transfer: a winner's pile with a fractional weight *)
+(* TypeError, Hare, random transfer: a fractional weight (refused at construction since the
+   up-front check; before it, when the winner's pile was transferred) *)
 Example hare_random_fractional_weight :
   let p := mkProfile [hbal [1] (5 # 2)%Q; hbal [2] (1 # 2)%Q] [1; 2] in
   let cfg := mkStv 2%Z QHare true TRandom None in
